@@ -55,8 +55,12 @@ OK06(e) ==
                  SameRes(e.block, e.poll) /\ SameRes(e.async, e.poll))
 
 \* ---- C03 (totality part)
+\* text handed out inside an error value is a Rust String: it must be well-formed UTF-8 (a String built from
+\* unvalidated bytes is undefined behaviour waiting for its first use)
+ErrTextOk(r) == (r.k = "err" /\ r.e \in {"InvalidTopicName", "InvalidTopicFilter", "InvalidProtocol"}) => Utf8Ok(r.a[1])
 OK03(e) == /\ Outcome(e.block) /\ Outcome(e.async) /\ Outcome(e.poll) /\ Outcome(e.hdr_block) /\ Outcome(e.hdr_async)
            /\ Outcome(e.poll_sched) /\ Outcome(e.async_1)
+           /\ ErrTextOk(e.block) /\ ErrTextOk(e.async) /\ ErrTextOk(e.poll) /\ ErrTextOk(e.poll_sched) /\ ErrTextOk(e.async_1)
 Kinds == {"ok", "incomplete", "eof", "err"}
 OK03Short(e) == \A i \in 1..Len(e.rows) : \A j \in 2..6 : e.rows[i][j] \in Kinds
 
